@@ -77,6 +77,18 @@ CHECKS = {
         'sha256 collisions not considered; default elision follows Python == (type-consistent generation).',
         'DESIGN.md §4 C03',
     ),
+    'C04': (
+        'exploration',
+        'Hypothesis-generated histories (chains, MultiChains, value requests, inspections, restarts, fresh-interpreter '
+        'sessions) checked step by step against a store/evaluator reference model via an invocation log',
+        'Every generated run method logs (task, storage key) through the harness runtime; after each step of a generated '
+        'history the log increment must equal the model\'s predicted pull-closure exactly, construction/inspection must '
+        'add nothing, and no location may be run twice over the history - including across pristine forked processes '
+        'working on the same data directory.',
+        'Processes run sequentially; run bodies read all their inputs; the two reference models are trusted after '
+        'cross-validation.',
+        'DESIGN.md §3, §4 C04',
+    ),
     'C06': (
         'exploration',
         'Hypothesis strategies per storable domain driven through real tasks in real chains; round-trip oracle with '
